@@ -8,6 +8,7 @@ import (
 	"flag"
 	"fmt"
 	"math"
+	"math/big"
 	"math/rand"
 	"os"
 	"strconv"
@@ -185,6 +186,10 @@ func (sg *smlGen) item(depth int, vars bool) []string {
 		for i := 0; i < n; i++ {
 			if vars && g.chance(0.2) {
 				body = append(body, sg.varName())
+			} else if g.chance(0.06) {
+				// an integer notation that a float item does not accept (an error in every letter case)
+				c := g.pick(4096)
+				body = append(body, intSpelling(g, int64(c), false, uint64(c)))
 			} else {
 				body = append(body, floatSpelling(g, ty == "F4"))
 			}
@@ -276,7 +281,7 @@ func (sg *smlGen) message(vars bool) []string {
 
 // ---------- layouts ----------
 
-var commentTexts = []string{"", " comment", " S1F1 W <A \"x\"> .", " caf\u00e9", " \u540d\u524d ", " ends in \u00e0", " tab\there", " \"quote", " // again", "\u2028sep", " nbsp\u00a0", " 0x85:\u0085", "\xff\xfe raw", "\x85", "\xa0"}
+var commentTexts = []string{"", " comment", " see S2F2\rS9F9 W old text", "\r<A \"x\">", " a\rb\rc", " S1F1 W <A \"x\"> .", " caf\u00e9", " \u540d\u524d ", " ends in \u00e0", " tab\there", " \"quote", " // again", "\u2028sep", " nbsp\u00a0", " 0x85:\u0085", "\xff\xfe raw", "\x85", "\xa0"}
 
 // selfDelimiting tokens can touch their neighbours
 func selfDelimiting(t string) bool {
@@ -507,6 +512,30 @@ func suiteC05(c *Ctx) {
 			exp = mk(func() ast.ItemNode { return ast.NewFloatNode(w, v) })
 		}
 		emit(fmt.Sprintf("S1F1 <F%d %s> .", w, lit), exp, "float")
+	}
+	// literals just above the midpoint of two adjacent float32 values: rounding
+	// once (to float32) and rounding twice (to float64, then to float32) differ
+	for i := 0; i < c.scale(300, 5000); i++ {
+		b := g.f32Bits() &^ 0x80000000
+		if b >= 0x7f7fffff || b < 0x00800000 {
+			continue
+		}
+		lo := float64(math.Float32frombits(b))
+		hi := float64(math.Float32frombits(b + 1))
+		mid := new(big.Float).SetPrec(200).SetFloat64(lo)
+		mid.Add(mid, new(big.Float).SetPrec(200).SetFloat64(hi))
+		mid.Quo(mid, big.NewFloat(2))
+		lit := mid.Text('f', 120)
+		lit = strings.TrimRight(lit, "0") + []string{"1", "0000000001", ""}[g.pick(3)]
+		if g.chance(0.3) {
+			lit = "-" + lit
+		}
+		v, err := strconv.ParseFloat(lit, 32)
+		var exp ast.ItemNode
+		if err == nil {
+			exp = mk(func() ast.ItemNode { return ast.NewFloatNode(4, v) })
+		}
+		emit(fmt.Sprintf("S1F1 <F4 %s> .", lit), exp, "float32 midpoint")
 	}
 	for _, bad := range []string{"T", `"1.0"`, "0x10", "1e", "1e+", "--1", "1e3e3", "0b1", "nan", "inf"} {
 		if bad == "nan" || bad == "inf" {
@@ -780,8 +809,53 @@ func (g *Gen) mutateText(s string) string {
 	return string(b)
 }
 
+// what must hold for a text made of k valid messages with one fragment between two of them
+type c06Expect struct {
+	k        int
+	gapOnly  bool // the fragment is white space / comments only
+	fragment string
+}
+
+var c06Expected = map[string]c06Expect{}
+
+var betweenJunk = []string{"\xff", "\xfe\xff", "\xef\xbf\xbd", "\xc3", "@", "x", "1", "<", ">", "\"s\"", "W", "H->E", "\x00", "\u00a0", "\u2028", "\f", "\v", "...", "[2]", "é"}
+var betweenGaps = []string{"", " ", "\n", "\r\n", "\t \n", "// c\n", " // \xff\xfe raw\n", "//\n//\n", "\n\n"}
+
 func suiteC06(c *Ctx) {
 	g := c.gen()
+	for i := 0; i < c.scale(600, 30000); i++ {
+		k := 2 + g.pick(3)
+		var parts []string
+		for j := 0; j < k; j++ {
+			for {
+				sg := &smlGen{g: g}
+				t := layout(g, sg.message(g.chance(0.4)), layoutStyles[g.pick(3)])
+				if ms, errs, _ := sml.Parse(t); len(errs) == 0 && len(ms) == 1 {
+					parts = append(parts, t)
+					break
+				}
+			}
+		}
+		at := 1 + g.pick(k-1)
+		gap := g.chance(0.4)
+		frag := betweenJunk[g.pick(len(betweenJunk))]
+		if gap {
+			frag = betweenGaps[g.pick(len(betweenGaps))]
+		} else {
+			frag = []string{" ", "\n", ""}[g.pick(3)] + frag + []string{" ", "\n"}[g.pick(2)]
+		}
+		text := ""
+		for j, p := range parts {
+			if j == at {
+				text += frag
+			} else if j > 0 {
+				text += "\n"
+			}
+			text += p
+		}
+		c06Expected[text] = c06Expect{k, gap, frag}
+		c.emit(Case{"between", []Step{smlStep(text)}, false})
+	}
 	n := c.scale(3000, 150000)
 	for i := 0; i < n; i++ {
 		var text string
@@ -820,6 +894,16 @@ func monitorC06(c *Ctx, id string, cs Case, e *Exec, final []string) {
 	if !ok {
 		c.hit(id, cs, "panic-escaped", fmt.Sprintf("%q: %v", short(text), e.Pool[0]))
 		return
+	}
+	if exp, ok := c06Expected[text]; ok {
+		c.stats["monitor:between"]++
+		if exp.gapOnly && (len(res.errs) != 0 || len(res.msgs) != exp.k) {
+			c.hit(id, cs, "messages-lost", fmt.Sprintf("%d valid messages separated by %q: %d returned, errors %v", exp.k, exp.fragment, len(res.msgs), res.errs))
+		}
+		if !exp.gapOnly && len(res.errs) == 0 && len(res.msgs) != exp.k {
+			// a stray fragment between two messages: an error, or at least nothing lost
+			c.hit(id, cs, "messages-lost-silently", fmt.Sprintf("%d valid messages with %q between two of them: no error, %d messages returned", exp.k, exp.fragment, len(res.msgs)))
+		}
 	}
 	if len(res.errs) > 0 && len(res.msgs) > 0 {
 		c.hit(id, cs, "errors-and-messages", fmt.Sprintf("%q: %d messages with errors %v", short(text), len(res.msgs), res.errs))
